@@ -93,7 +93,8 @@ structure RBroker where
 
 def RBroker.first (b : RBroker) : Int := (b.items.head?.map (·.2)).getD b.hwm
 
-def frameHeader (ver : Nat) : Nat := if ver = 2 then 37 else if ver = 5 then 57 else 63
+/-- bytes of a fetch response frame before the message set (correlation id included), for the driver's 5-character topic names -/
+def frameHeader (ver : Nat) : Nat := (if ver = 2 then 37 else if ver = 5 then 57 else 63) + 4
 
 /-- rdBroker.answer -/
 def RBroker.answer (b : RBroker) (o : Int) : RBroker × Answer :=
